@@ -1149,3 +1149,23 @@ Theorem C04_ranged_alias :
          Parser.vp_parse (Cmd.VPRanged U8 0 255) s = Parser.vp_parse Cmd.VPCount s.
 Proof. exact TypedWide.ranged_alias. Qed.
 Print Assumptions C04_ranged_alias.
+
+(** "anything else is rejected with a value error", at the parser model's value parsers, all ten names: a string
+    outside the documented language gets one of the three value-error kinds (InvalidUtf8 only when it is ill-formed);
+    push_arg_values then raises it with the argument's id (C10: push_arg_values_sound), and C04_value_error_sound
+    traces every value error of parse_top back to such a refusal.  Conversely a refusal means "outside". *)
+Theorem C04_outside_reading_rejected :
+  forall (vp : Cmd.vparser) (s : bytes),
+         ~ TypedWide.stored_reading vp s ->
+         exists k : Errors.ekind,
+           Parser.vp_parse vp s = Some k /\
+           In k [Errors.EInvalidUtf8; Errors.EInvalidValue; Errors.EValueValidation] /\
+           (k = Errors.EInvalidUtf8 -> utf8_valid s = false).
+Proof. exact TypedWide.outside_reading_rejected. Qed.
+Print Assumptions C04_outside_reading_rejected.
+
+Theorem C04_rejected_outside_reading :
+  forall (vp : Cmd.vparser) (s : bytes) (k : Errors.ekind),
+         Parser.vp_parse vp s = Some k -> ~ TypedWide.stored_reading vp s.
+Proof. exact TypedWide.rejected_outside_reading. Qed.
+Print Assumptions C04_rejected_outside_reading.
